@@ -23,7 +23,10 @@ from .encode import bundle, cps, decode_schema, dia, encode_schema, encode_value
 
 MODESETS = (("positive",), ("negative",), ("positive", "negative"))
 CONTAINER = {"path": "path_parameters", "query": "query", "header": "headers", "cookie": "cookies"}
-UNEXPECTED_METHODS = {"get", "put"}  # undocumented methods tried by the coverage phase (argument of _iter_coverage_cases)
+# methods offered to the coverage phase as candidates for "Unspecified HTTP method" cases (argument of _iter_coverage_cases);
+# the operation's own method and a possibly documented sibling are deliberately among them
+UNEXPECTED_METHODS = {"get", "put", "post", "patch"}
+HTTP_METHODS = {"get", "put", "post", "delete", "options", "head", "patch", "trace"}
 _PARAM_META = {"name", "in", "required", "description", "collectionFormat", "allowEmptyValue", "x-example", "x-examples"}
 
 
@@ -74,13 +77,33 @@ def build_document(desc: dict) -> tuple[dict, str, str]:
             raw["components"] = {"schemas": defs}
     if plist:
         operation["parameters"] = plist
+    item = desc.get("item") or {"ref": False, "also": []}
+    path_item = raw["paths"][path]
+    for m in item["also"]:          # other methods documented on the same path
+        path_item[m] = {"responses": {"200": {"description": "ok"}}}
+        if any(p["in"] == "path" for p in plist):
+            path_item[m]["parameters"] = [p for p in plist if p["in"] == "path"]
+    if item["ref"]:                 # the Path Item is given by a local reference
+        raw["x-path-items"] = {"Item": path_item}
+        raw["paths"][path] = {"$ref": "#/x-path-items/Item"}
     return raw, path, "POST"
+
+
+def path_item_of(raw: dict, path: str) -> dict:
+    item = raw["paths"][path]
+    for _ in range(4):
+        if isinstance(item, dict) and isinstance(item.get("$ref"), str) and item["$ref"].startswith("#/"):
+            from .encode import _resolve_pointer
+
+            item = _resolve_pointer(raw, item["$ref"])
+    return item
 
 
 def declared_op(raw: dict, path: str, desc: dict) -> dict:
     """The operation as the DOCUMENT declares it, encoded for the oracle (schemas re-read from the raw document)."""
     d = desc["dialect"]
-    operation = raw["paths"][path]["post"]
+    item = path_item_of(raw, path)
+    operation = item["post"]
     params, bodies, encs = [], [], []
     for p in operation.get("parameters", []):
         if p["in"] == "body":
@@ -100,7 +123,8 @@ def declared_op(raw: dict, path: str, desc: dict) -> dict:
         defs.update(b["defs"])
         encs.append(b["schema"])
     cfg = desc.get("cfg") or {"allow_x00": True, "codec": "utf-8", "security": False}
-    return {"params": params, "bodies": bodies, "cfg": cfg, "defs": defs, "dia": dia(d), "mults": multiples(encs, defs)}
+    return {"params": params, "bodies": bodies, "cfg": cfg, "defs": defs, "dia": dia(d), "mults": multiples(encs, defs),
+            "methods": sorted(k.upper() for k in item if k.lower() in HTTP_METHODS)}
 
 
 # ------------------------------------------------------------------------------------------------------------------
@@ -146,7 +170,7 @@ def project_case(case: Any, op: dict, method: str, exempt: bool = False) -> dict
               for k, v in q.items())
     return {"labels": labels, "parts": parts, "alt": alt, "hasBody": has_body,
             "body": encode_value(case.body, mults) if has_body else {"t": "absent"},
-            "media": case.media_type or "", "dup": dup, "methodDocumented": str(case.method).upper() == method, "exempt": exempt}
+            "media": case.media_type or "", "dup": dup, "method": str(case.method).upper(), "exempt": exempt}
 
 
 _STEP_PATTERNS = [
@@ -298,7 +322,7 @@ def judge(ctx: Ctx, schemas: list, ops: list, obs: list, name: str = "obs.json",
 
     schemas = schemas or [{"defs": {"nodefs": {"sk": "opaque"}}, "schema": {"sk": "opaque"}, "dia": "d4"}]
     ops = ops or [{"params": [], "bodies": [], "cfg": {"allow_x00": True, "codec": "utf-8", "security": False},
-                   "defs": {"nodefs": {"sk": "opaque"}}, "dia": "d4"}]
+                   "defs": {"nodefs": {"sk": "opaque"}}, "dia": "d4", "methods": ["POST"]}]
     k = max(1, min(4, len(obs) // 5000))
     size = (len(obs) + k - 1) // k if obs else 0
     jobs, offsets = [], []
@@ -390,6 +414,8 @@ def case_signature(rule: str, description: str, detail: Any, desc: dict) -> str:
         return "C03:case:case-label-lags-part-label:" + cls(t[0] for t in parts if t[1] == "F" and t[2] == "negative")
     if any(t[1] == "F" and t[2] == "none" for t in parts) and rule in ("case-positive-something-invalid", "part-positive-invalid"):
         return "C03:case:required-part-absent:" + cls(t[0] for t in parts if t[1] == "F" and t[2] == "none")
+    if kind == "method" and rule == "case-negative-nothing-invalid":
+        return "C03:case:documented-method-presented-as-unspecified"
     if rule == "part-negative-valid" and case_label == "positive":      # the case is presented as valid, one of its valid parts as invalid
         return "C03:case:negative-part-label-in-positive-case:%s" % cls(t[0] for t in parts if t[1] == "T" and t[2] == "negative")
     if rule in ("part-negative-valid", "case-negative-nothing-invalid"):      # a negative label on content that is valid
@@ -562,7 +588,7 @@ def selftest(ctx: Ctx) -> bool:
     schemas = [{"defs": sch["defs"], "schema": sch["schema"], "dia": "d4"}]
     op = {"params": [{"loc": "query", "name": cps("q"), "required": True, "schema": sch["schema"]}],
           "bodies": [{"media": "application/json", "schema": sch["schema"], "required": True}],
-          "cfg": {"allow_x00": True, "codec": "utf-8", "security": False}, "defs": sch["defs"], "dia": "d4"}
+          "cfg": {"allow_x00": True, "codec": "utf-8", "security": False}, "defs": sch["defs"], "dia": "d4", "methods": ["GET", "POST"]}
     absent = {"t": "absent"}
 
     def case(label, qv, body, blabel="positive", qlabel="positive", documented=True):
@@ -570,7 +596,7 @@ def selftest(ctx: Ctx) -> bool:
         return {"kind": "case", "prop": "C03", "opi": 1, "c": {
             "labels": {"case": label, "path": "none", "query": qlabel, "header": "none", "cookie": "none", "body": blabel},
             "parts": {"path": absent, "query": q, "header": absent, "cookie": absent}, "alt": {"path": absent, "query": q, "header": absent, "cookie": absent},
-            "hasBody": True, "body": encode_value(body), "media": "application/json", "dup": False, "methodDocumented": documented, "exempt": False}}
+            "hasBody": True, "body": encode_value(body), "media": "application/json", "dup": False, "method": "POST" if documented else "PUT", "exempt": False}}
 
     def val(v, mode, descr):
         return {"kind": "value", "si": 1, "value": encode_value(v), "mode": mode, "steps": parse_description(descr), "exempt": False}
